@@ -36,6 +36,13 @@ def vc_get(thunk):
         return UNBOUND
 
 
+class LoopReturn(BaseException):
+    """raised by SymLoop.on_return to leave the generic sub-path that executes `return`"""
+
+    def __init__(self, loop):
+        self.loop = loop
+
+
 class _Concrete:
     sym = False
 
@@ -204,6 +211,7 @@ class SymLoop(Merger):
             self.stores = []
             self.left = False
             mark = len(c.pc)
+            nfor = len(getattr(c, "foralls", []))
             c.solver.push()
             yield self.elem(self.var)
             # body finished: leave() has classified the effects of this sub-path
@@ -213,6 +221,18 @@ class SymLoop(Merger):
             work.extend(self.sub_pending)
             # undo the sub-path: path condition, arrays, lists
             tail = c.pc[mark:]
+            if "ret" in self.cur:
+                # everything learned on a returning sub-path about the generic element (decisions and
+                # facts, e.g. about Skolem constants of nested searches) travels with the return
+                self.cur["facts"] = [f for f in tail if _mentions(f, [self.var])]
+            # universal facts of nested searches that talk about the generic element
+            fl = getattr(c, "foralls", [])
+            mine = [f for f in fl[nfor:] if _mentions(f["body"], [self.var]) or _mentions(f["lo"], [self.var])
+                    or _mentions(f["hi"], [self.var])]
+            if mine:
+                c.foralls = fl[:nfor] + [f for f in fl[nfor:] if f not in mine]
+                if "ret" in self.cur:
+                    self.cur["foralls"] = mine
             del c.pc[mark:]
             c.solver.pop()
             for f in tail:
@@ -226,6 +246,7 @@ class SymLoop(Merger):
                     arr.arr = old
             for n, (lst, l0, blk) in self.cur["lists"].items():
                 del lst[l0:]
+            self.cur = None
 
     def _close_scope(self):
         c = ctx()
@@ -320,8 +341,55 @@ class SymLoop(Merger):
     def on_continue(self):
         raise Unsupported("%s: continue inside a generic iteration" % self.loop_id)
 
-    def on_return(self):
-        raise Unsupported("%s: return inside a generic iteration" % self.loop_id)
+    def on_return(self, value):
+        """`return value` inside the generic iteration: search-loop rule.  The sub-path is recorded
+        as a returning one (no other effect allowed) and abandoned."""
+        if self.stores:
+            raise Unsupported("%s: return after an array store in a generic iteration" % self.loop_id)
+        self.cur = {"accs": {n: ("same",) for n in self.stored}, "lists": {}, "arrays": {}, "ret": value}
+        self.left = True
+        raise LoopReturn(self)
+
+    def takes_return(self):
+        """after the loop: does some iteration return?  Main-level decision.
+        True  : i0 is the least index whose iteration returns (facts: range, condition, minimality schema)
+        False : no iteration returns (universal fact registered as an instantiable schema)"""
+        if not self.ran:
+            return False
+        rets = [(pc, e["ret"]) for pc, e in self.sub_results if "ret" in e]
+        if not rets:
+            return False
+        c = ctx()
+        var, lo, hi = self.var, self.lo, self.hi
+        # decisions only: which iterations reach a `return`
+        cond = z3.Or(*[_and(pc) for pc, _ in rets]) if len(rets) > 1 else _and(rets[0][0])
+        full = [z3.And(_and(pc), _and(e.get("facts", []))) for pc, e in self.sub_results if "ret" in e]
+        fullcond = z3.Or(*full) if len(full) > 1 else full[0]
+        i0 = z3.Int(c.fresh("i0"))
+        here = z3.And(i0 >= lo, i0 < hi, z3.substitute(fullcond, (var, i0)))
+        if not hasattr(c, "foralls"):
+            c.foralls = []
+        # the decision itself: a fresh boolean recorded in the path prefix
+        b = z3.Bool(c.fresh("ret"))
+        if c.feasible(here) and c.branch(b):
+            c.assume(here)
+            c.foralls.append({"var": var, "lo": lo, "hi": i0, "body": z3.Not(cond),
+                              "why": "%s: no earlier iteration returns" % self.loop_id})
+            for _, e in self.sub_results:
+                for f in e.get("foralls", []):
+                    c.foralls.append({"var": f["var"], "lo": z3.substitute(f["lo"], (var, i0)),
+                                      "hi": z3.substitute(f["hi"], (var, i0)),
+                                      "body": z3.substitute(f["body"], (var, i0)), "why": f["why"]})
+            vals = [_subst_value(v, var, i0) for _, v in rets]
+            conds = [z3.substitute(_and(pc), (var, i0)) for pc, _ in rets]
+            self._ret_value = _merge_values(conds, vals, self.loop_id) if len(vals) > 1 else vals[0]
+            return True
+        c.foralls.append({"var": var, "lo": lo, "hi": hi, "body": z3.Not(cond),
+                          "why": "%s: no iteration returns" % self.loop_id})
+        return False
+
+    def return_value(self):
+        return self._ret_value
 
     # ------------------------------------------------------------------
     def exit(self, vals):
@@ -334,6 +402,10 @@ class SymLoop(Merger):
         var, lo, hi = self.var, self.lo, self.hi
         conds = [_and(pc) for pc, _ in self.sub_results]
         effs = [e for _, e in self.sub_results]
+        if any("ret" in e for e in effs):
+            for e in effs:
+                if e["arrays"] or e["lists"] or any(k[0] not in ("same", "temp") for k in e["accs"].values()):
+                    raise Unsupported("%s: a loop that may return must have no other effect" % self.loop_id)
         # ---- arrays (R1)
         arrs = {}
         for e in effs:
@@ -434,19 +506,33 @@ def _valid(c, f):
     return r == z3.unsat
 
 
+class _FoldApp:
+    """callable G(lo, hi) that also passes the enclosing generic variables the term depends on"""
+
+    def __init__(self, fn, params):
+        self.fn, self.params = fn, params
+
+    def __call__(self, lo, hi):
+        return self.fn(lo, hi, *self.params)
+
+
 def fold_fn(c, kind, var, term, loop_id):
-    """ghost fold function G(lo, hi) for `term` (a z3 term in `var`), with its unfolding
-    facts registered in c.folds so that the discharge step and the spec side can use them"""
+    """ghost fold function G(lo, hi, p...) for `term` (a z3 term in `var` and in the generic variables
+    p of enclosing generic iterations), with its unfolding facts registered in c.folds so that the
+    discharge step and the spec side can use them"""
     if not hasattr(c, "folds"):
         c.folds = []
+    params = [v for v in c.scopes if v.get_id() != var.get_id() and _mentions(term, [v])]
     for f in c.folds:
-        if f["kind"] == kind and z3.eq(z3.substitute(f["term"], (f["var"], var)), term):
-            return f["fn"]
+        if f["kind"] == kind and len(f["params"]) == len(params) and \
+                z3.eq(z3.substitute(f["term"], [(f["var"], var)] + list(zip(f["params"], params))), term):
+            return _FoldApp(f["fn"], params)
     k = len(c.folds)
     rs = term.sort()
-    fn = z3.Function("%s!%d" % ("SUM" if kind == "sum" else "PROD", k), z3.IntSort(), z3.IntSort(), rs)
-    c.folds.append({"kind": kind, "var": var, "term": term, "fn": fn, "loop": loop_id})
-    return fn
+    fn = z3.Function("%s!%d" % ("SUM" if kind == "sum" else "PROD", k), z3.IntSort(), z3.IntSort(),
+                     *([p.sort() for p in params] + [rs]))
+    c.folds.append({"kind": kind, "var": var, "term": term, "fn": fn, "loop": loop_id, "params": params})
+    return _FoldApp(fn, params)
 
 
 def sum_of_symarr(a):
@@ -478,7 +564,7 @@ def fold_facts(c, exprs):
             stack.append(t.body())
             continue
         if z3.is_app(t):
-            if t.decl().kind() == z3.Z3_OP_UNINTERPRETED and t.decl().name() in byname and t.num_args() == 2:
+            if t.decl().kind() == z3.Z3_OP_UNINTERPRETED and t.decl().name() in byname and t.num_args() >= 2:
                 apps[t.get_id()] = t
             stack.extend(t.children())
     for t in apps.values():
@@ -486,9 +572,13 @@ def fold_facts(c, exprs):
         a, b = t.arg(0), t.arg(1)
         unit = (z3.IntVal(0) if z3.is_int(t) else z3.RealVal(0)) if f["kind"] == "sum" else \
                (z3.IntVal(1) if z3.is_int(t) else z3.RealVal(1))
-        last = z3.substitute(f["term"], (f["var"], b - 1))
-        first = z3.substitute(f["term"], (f["var"], a))
-        fn = f["fn"]
+        actual = [t.arg(2 + k) for k in range(len(f["params"]))]
+        if any(_mentions(x, [f["var"]]) for x in actual):
+            continue
+        psub = list(zip(f["params"], actual))
+        last = z3.substitute(f["term"], [(f["var"], b - 1)] + psub)
+        first = z3.substitute(f["term"], [(f["var"], a)] + psub)
+        fn = lambda lo_, hi_: f["fn"](lo_, hi_, *actual)
         if f["kind"] == "sum":
             facts.append(z3.Implies(b <= a, t == unit))
             facts.append(z3.Implies(b > a, t == fn(a, b - 1) + last))
